@@ -56,12 +56,14 @@ func (fl *Flow) GetType() internalTypes.FlowType {
 
 // GetContext returns the flow context.
 func (fl *Flow) GetExecutionContext() publicTypes.LunarContextI {
-	return fl.contextManager.GetLunarContext()
+	return fl.contextManager.NewExecutionContext()
 }
 
 // CleanExecution cleans the flow execution.
 func (fl *Flow) CleanExecution() {
-	fl.contextManager.DestroyTransactionalContext()
+	// The transactional context belongs to the execution context handed out by
+	// GetExecutionContext and goes away with it. Transactions run concurrently through the
+	// same flow, so nothing that is shared between them may be cleared here.
 	//... add here more cleanup logic
 }
 
